@@ -1,4 +1,6 @@
 """C02 Successful output is always well-formed XML with a proper SVG root (escaping discipline)."""
+import re
+
 from sa import rules as R
 from sa.prog import P, Callee, op_place, op_const, const_str
 from props import xmlsink as X
@@ -288,7 +290,7 @@ def root_synthesis(prog, chk):
     chk.ob(bool(wr_pat), "A13.root-closed", "write_root_svg:empty-root-attrs", wr.where(), "write_root_svg takes the author's root attributes from Start as well as Empty roots", "attributes of an empty-element root are dropped")
 
 
-def _flag_like(body, local, depth=3):
+def _flag_like(body, local, depth=6):
     """a bool local all of whose definitions are constants (possibly through a copy of another such local): a flag
     recording which way an earlier match went, as opposed to a configuration value"""
     defs = body.defs_of(local)
@@ -306,6 +308,25 @@ def _flag_like(body, local, depth=3):
                 return False
             continue
         pl = op_place(rv["op"])
+        if pl is not None and len(pl[1]) == 1 and re.fullmatch(r"\.\d+", str(pl[1][0])):
+            # component of a tuple of flags: `let (found, close) = match .. { .. => (true, is_empty), _ => (false, false) }`
+            n = int(str(pl[1][0])[1:])
+            tdefs = body.defs_of(pl[0])
+            if not tdefs:
+                return False
+            for td in tdefs:
+                if td[1] == R.TERM or td[2]["k"] != "aggr" or td[2].get("ak") != "tuple" or n >= len(td[2]["ops"]):
+                    return False
+                o = td[2]["ops"][n]
+                k2 = op_const(o)
+                if k2 is not None:
+                    if "bool" not in k2:
+                        return False
+                    continue
+                p2 = op_place(o)
+                if p2 is None or p2[1] or not _flag_like(body, p2[0], depth - 1):
+                    return False
+            continue
         if pl is None or pl[1] or not _flag_like(body, pl[0], depth - 1):
             return False
     return True
